@@ -20,6 +20,7 @@ type facts struct {
 	SelAcquire, SelRecv   bool
 	WaitBeforeEarlyReturn bool
 	AddBeforeGo           bool
+	AddAfterGo            bool
 	WorkerOps             []string
 	WriteGuarded          bool
 	FinalWait             bool
@@ -246,6 +247,8 @@ func (e *extractor) loopBody(l []ast.Stmt) error {
 		case *ast.ExprStmt:
 			if e.wgCall(x.X, "Add") && !seenGo {
 				e.f.AddBeforeGo = true
+			} else if e.wgCall(x.X, "Add") {
+				e.f.AddAfterGo = true
 			} else {
 				return fmt.Errorf("loop: unrecognised expression statement")
 			}
@@ -461,7 +464,7 @@ func (f *facts) lean() string {
 	fmt.Fprintf(w, "import ThriftVerif.Lib.AsyncPP\nnamespace Generated.C19\nopen AsyncPP\n\n")
 	fmt.Fprintf(w, "def facts : Facts :=\n  { clampConc := %s,\n    errsCap := %s,\n    procCap := %s,\n    selAcquire := %s,\n    selRecvErr := %s,\n",
 		lb(f.ClampConc), f.ErrsCap, f.ProcCap, lb(f.SelAcquire), lb(f.SelRecv))
-	fmt.Fprintf(w, "    waitBeforeEarlyReturn := %s,\n    addBeforeGo := %s,\n    workerOps := [%s],\n    writeGuarded := %s,\n    finalWait := %s,\n    finalRecv := %s }\n\nend Generated.C19\n",
-		lb(f.WaitBeforeEarlyReturn), lb(f.AddBeforeGo), strings.Join(f.WorkerOps, ", "), lb(f.WriteGuarded), lb(f.FinalWait), f.FinalRecv)
+	fmt.Fprintf(w, "    waitBeforeEarlyReturn := %s,\n    addBeforeGo := %s,\n    addAfterGo := %s,\n    workerOps := [%s],\n    writeGuarded := %s,\n    finalWait := %s,\n    finalRecv := %s }\n\nend Generated.C19\n",
+		lb(f.WaitBeforeEarlyReturn), lb(f.AddBeforeGo), lb(f.AddAfterGo), strings.Join(f.WorkerOps, ", "), lb(f.WriteGuarded), lb(f.FinalWait), f.FinalRecv)
 	return w.String()
 }
